@@ -455,6 +455,37 @@ class ExternalVariableCollector(NodeVisitor):
             self.provenance.setdefault(node.id, "body")
             self.assigned.add(node.id)
 
+    def visit_comprehension(self, node):
+        # The variables of a comprehension are its own: only what it reads
+        # (and what assignment expressions inside it set) belongs to the
+        # function
+        own = SimpleVariableCollector(node.target).vars
+        self.visit(node.iter)
+        for cond in node.ifs:
+            self.visit(cond)
+        self._comprehension_vars = (
+            getattr(self, "_comprehension_vars", set()) | own
+        )
+
+    def _visit_comprehension_expr(self, node):
+        outer = getattr(self, "_comprehension_vars", set())
+        used_before = set(self.used)
+        for gen in node.generators:
+            self.visit(gen)
+        own = getattr(self, "_comprehension_vars", set()) - outer
+        for field in ("elt", "key", "value"):
+            if hasattr(node, field):
+                self.visit(getattr(node, field))
+        # Reads of the comprehension's own variables are not reads of the
+        # function's variables of the same name
+        self.used -= own - used_before
+        self._comprehension_vars = outer
+
+    visit_ListComp = _visit_comprehension_expr
+    visit_SetComp = _visit_comprehension_expr
+    visit_DictComp = _visit_comprehension_expr
+    visit_GeneratorExp = _visit_comprehension_expr
+
     def visit_Global(self, node):
         for name in node.names:
             self.provenance[name] = "external"
